@@ -58,7 +58,7 @@ def extra_filters(rng, n, nc=12):
 # ---------------------------------------------------------------------------- seeded long histories (scripted mode)
 
 VALS = [("str", "s"), ("str", "t"), ("num", 1), ("num", 2), ("bool", True), ("bool", False), ("list", ["s"]), ("list", ["s", "t"]),
-        ("list", ["t"]), ("list", [])]
+        ("list", ["t"]), ("list", []), ("str", "1"), ("str", "1.0"), ("str", "2"), ("num", 1), ("num", 2)]
 
 
 def tla_value(v):
@@ -170,7 +170,7 @@ def harness_profile(seed, ids, basis):
     metric, target = rng.choice([("euclidean", "float16"), ("cosine", "int8"), ("euclidean", "float16")])
     return {"ids": ids, "keys": keys, "strs": strs, "num_mul": mul, "num_add": addn, "native": False, "metric": metric,
             "target": target, "bare": True, "seed": seed, "search": True, "max_div": 6,
-            "clauses": basis["clauses"], "filters": basis["filters"]}
+            "clauses": basis["clauses"], "filters": basis["filters"], "numstr": basis.get("numstr") or {}}
 
 
 # ---------------------------------------------------------------------------- TLC
@@ -284,7 +284,7 @@ def provenance(ops):
     return prov
 
 
-TOTALS = ["behaviours", "steps", "states_judged", "filter_evals", "search_evals", "search_equal", "nontrivial", "nonempty", "div_total", "div_pinned"]
+TOTALS = ["behaviours", "steps", "states_judged", "filter_evals", "search_evals", "search_equal", "nontrivial", "nonempty", "unjudged", "div_total", "div_pinned"]
 
 
 def replay(chk, behaviours, prof, totals, label):
@@ -429,13 +429,16 @@ def run(tier):
     ids3 = IDS["<- c_Ids3"]
     if quick:
         jobs = [
-            {"name": "MC_Filter_q_types", "consts": consts(add="<- c_Add_K8", set_="<- c_Set_K8", max_ops=3, extra=extra_filters(rng, 12), all_histories=True), "seed": seed},
+            {"name": "MC_Filter_q_types", "consts": consts(add="<- c_Add_K6", set_="<- c_Set_K6", max_ops=3, extra=extra_filters(rng, 12), all_histories=True), "seed": seed},
             {"name": "MC_Filter_q_3ids", "consts": consts(ids="<- c_Ids3", add="<- c_Add_K3", set_="<- c_Set_K3", max_ops=3, extra=extra_filters(rng, 12)), "seed": seed + 100},
             {"name": "MC_Filter_q_2keys", "consts": consts(add="<- c_Add_KJ32", set_="<- c_Set_KJ32", basis="<- c_Basis2", max_ops=3, extra=extra_filters(rng, 12)), "seed": seed + 200},
+            # numeric-looking strings next to the numbers they read as: every history (overwrites "2" <-> 2, "1.0" <-> "1" <-> 1)
+            {"name": "MC_Filter_q_numstr", "consts": consts(add="<- c_Add_KN", set_="<- c_Set_KN", basis="<- c_Basis3", steps="<- c_StepsRestart", max_ops=3,
+                                                             extra=extra_filters(rng, 12), all_histories=True), "seed": seed + 250},
             {"name": "MC_Filter_q_walks", "consts": consts(ids="<- c_Ids3", max_ctr=99, extra=extra_filters(rng, 12)), "seed": seed + 300,
-             "walks": gen_walks(rng, 260, 16, ids3)},
+             "walks": gen_walks(rng, 200, 16, ids3)},
             {"name": "MC_Filter_q_walks2", "consts": consts(ids="<- c_Ids3", basis="<- c_Basis2", max_ctr=99, extra=extra_filters(rng, 12)), "seed": seed + 400,
-             "walks": gen_walks(rng, 140, 16, ids3)},
+             "walks": gen_walks(rng, 100, 16, ids3)},
         ]
         workers, tmo = 4, 600
     else:
@@ -446,6 +449,9 @@ def run(tier):
             # every state is model-checked; a seeded sample of its histories is replayed (the other families are replayed in full)
             {"name": "MC_Filter_t_2keys", "consts": consts(add="<- c_Add_KJ43", set_="<- c_Set_KJ43", basis="<- c_Basis2", max_ops=4, extra=extra_filters(rng, 24)), "seed": seed + 200,
              "sample": 120000},
+            {"name": "MC_Filter_t_numstr", "consts": consts(add="<- c_Add_KN", set_="<- c_Set_KN", basis="<- c_Basis3", max_ops=4, extra=extra_filters(rng, 24)), "seed": seed + 250},
+            {"name": "MC_Filter_t_numstr3", "consts": consts(add="<- c_Add_KN", set_="<- c_Set_KN", basis="<- c_Basis3", steps="<- c_StepsRestart", max_ops=3,
+                                                              extra=extra_filters(rng, 24), all_histories=True), "seed": seed + 260},
             {"name": "MC_Filter_t_walks", "consts": consts(ids="<- c_Ids3", max_ctr=99, extra=extra_filters(rng, 24)), "seed": seed + 300,
              "walks": gen_walks(rng, 2000, 20, ids3)},
             {"name": "MC_Filter_t_walks2", "consts": consts(ids="<- c_Ids3", basis="<- c_Basis2", max_ctr=99, extra=extra_filters(rng, 24)), "seed": seed + 400,
@@ -459,7 +465,7 @@ def run(tier):
     small = {"name": "MC_Filter_defs", "consts": consts(add="<- c_Add_K8", set_="<- c_Set_K8", max_ops=3, extra=extra_filters(rng, 6), pairs=not quick),
              "invs": ALL_INVS, "workers": workers, "timeout": tmo}
 
-    pool = ThreadPoolExecutor(max_workers=4)
+    pool = ThreadPoolExecutor(max_workers=5)
     futs = [(j, submit(pool, j)) for j in jobs]
     fut_small = pool.submit(tlc_corpus, small)
     fut_dev = pool.submit(deviation_probe, chk, consts(add="<- c_Add_KL", set_="<- c_Set_KL", max_ops=3, pairs=False))
@@ -511,9 +517,12 @@ def run(tier):
         "quoting / clause order and sent to VFilter (set equality with the specification) and VSearch (subset). "
         + "; ".join("%s: %d states, %d of %d histories replayed, %d filters" % (f["config"], f["states_recorded"], f["histories_replayed"], f["histories"], f["filters_in_basis"]) for f in families))
     chk.assumptions += [
-        "metadata values are drawn from {\"s\",\"t\", 1, 2, true, false, [\"s\"], [\"s\",\"t\"], [\"t\"], [], absent} over two keys (refined by the harness to other strings / "
-        "numbers / field names, order preserving); strings that look like numbers or booleans, list elements that are not strings, nested maps and JSON null are "
-        "outside the universe (ambiguous or undocumented)",
+        "metadata values are drawn from {\"s\",\"t\", 1, 2, true, false, [\"s\"], [\"s\",\"t\"], [\"t\"], [], the numeric-looking strings \"1\", \"1.0\", \"2\", absent} over two keys "
+        "(refined by the harness to other strings / numbers / field names, order preserving; a numeric-looking string is refined to the text of the number it reads as); "
+        "strings that look like booleans, list elements that are not plain strings, nested maps and JSON null are outside the universe (ambiguous or undocumented)",
+        "the documentation does not say whether a quoted numeric text equals a number, nor whether a bare number equals a string that reads the same: a filter holding such a "
+        "(clause, live value) pair is not judged in that state (counted as unjudged); range operators are judged always (they select numbers only); numeric clauses are "
+        "written bare, numeric-looking text literals quoted",
         "values reach the engine with the Go types a JSON client produces (string, float64, bool, []any); Go-native ints / []string handed to the embedded API are not covered",
         "filters are OR of ANDs of clauses key op literal with op in = != < <= > >=; range operators are only issued with numeric literals; CONTAINS(), "
         "parentheses and literals containing quotes or the words AND / OR are outside the grammar covered",
